@@ -21,7 +21,7 @@ PROPERTY_UNITS = {
     "C06": ["bdd_ops", "dnf", "proper_subtype", "semtype_ops"],
     "C04": ["bdd_ops", "dnf", "proper_subtype", "semtype_ops", "to_schema", "list_shape", "mapping_dnf", "access", "list_access"],
     "C05": ["semtype_ops", "list_shape", "mapping_dnf"],
-    "C07": ["dnf", "to_schema", "list_access"],
+    "C07": ["dnf", "to_schema", "list_access", "access"],
 }
 # obligation kind -> which property "owns" it when no explicit tag is given
 SEMANTIC = ("C06", "C05", "C07")
@@ -464,7 +464,7 @@ BOUNDED = {
                  what="`Exclude<A, B>` at SOURCE level for A, B from 171 types (literals, basic types, tuples, arrays, objects, two named recursive types and their pairwise unions; every 3rd of the 29241 pairs in the quick tier): the type handed to code generation for the result is read with an independent evaluator of Runtype on about 170 finite values and must lie between the set difference and A; when every top-level member of A is, on those values, either inside or outside B, it must be exactly the union of the members outside (programs answered with a diagnostic are skipped)"),
             dict(family="keyof", obligation="access/bounded-standin/keyof.keyof",
                  known_cases="contracts/known_keyof_cases.txt",
-                 what="keyof (not under contract): keyof A, keyof (A & B), keyof (A | B) for object atoms whose declared keys are the non-empty subsets of {a, b, c}, 147 questions, against the declared keys / their union / their intersection"),
+                 what="keyof (not under contract): keyof A, keyof (A & B), keyof (A | B) for object atoms whose declared keys are the non-empty subsets of {a, b, c}, 182 questions (147 on object atoms, 35 on unions with a primitive member, which has no keys), against the declared keys / their union / their intersection"),
             dict(family="listidx", obligation="access/bounded-standin/listidx.list_indexed_access",
                  known_cases="contracts/known_listidx_cases.txt",
                  what="list_indexed_access end to end through the public SemTypeContext::indexed_access (the per-atom member type is proved in unit U10, termination and panic-freedom of the walk over the diagram in U9, the walk's RESULT is not under contract): T[i], T[i | j], T[number except i] and T[number except i | j] for tuple types with a prefix up to length 3 over {string, number, boolean} and an optional rest, i, j in 0..=4, 3600 questions, against the item types at the selected indices"),
